@@ -50,6 +50,27 @@ Section G.
     | S f => pure_weights (kind_of (n_type (node_of g0 x)) (n_label (node_of g0 x)))
                           (map (fun e => edge_w (gspec f) (eshape e)) (edges_from g0 x))
     end.
+
+  (* wildcard list of an edge: the public type of a wildcard target, nothing for a type, the target's list otherwise *)
+  Definition edge_wild (rec : str -> list str) (sh : eshape_t) : list str :=
+    let '(_, to, _) := sh in
+    match n_type (node_of g0 to) with
+    | NWildcard => [drop_last2 to]
+    | NType => []
+    | _ => rec to
+    end.
+
+  Fixpoint wild_spec (fuel : nat) (x : str) : list str :=
+    match fuel with
+    | O => []
+    | S f => flat_map (fun e => edge_wild (wild_spec f) (eshape e)) (edges_from g0 x)
+    end.
+
+  (* T:* can be reached from x along edges, through relations and operators only *)
+  Inductive reaches_wild : str -> str -> Prop :=
+  | rw_here x e : In e (edges_from g0 x) -> n_type (node_of g0 (e_to e)) = NWildcard -> reaches_wild x (drop_last2 (e_to e))
+  | rw_step x e T : In e (edges_from g0 x) -> is_terminal (n_type (node_of g0 (e_to e))) = false ->
+                    reaches_wild (e_to e) T -> reaches_wild x T.
 End G.
 
 (* a rank function witnessing that the graph has no cycle, checked edge by edge *)
@@ -61,9 +82,11 @@ Definition terminals_not_placeholders (g : wgraph) : Prop :=
   forall x e, In e (edges_from g x) -> is_terminal (n_type (node_of g (e_to e))) = true ->
               is_ref_key (term_label (n_type (node_of g (e_to e))) (e_to e)) = false.
 
-(* nothing has a weight yet *)
+(* nothing has a weight or a wildcard list yet (wildcard nodes name their own type from the start) *)
 Definition unweighted (g : wgraph) : Prop :=
-  (forall x, n_weights (node_of g x) = []) /\ (forall x e, In e (edges_from g x) -> e_weights e = []).
+  (forall x, n_weights (node_of g x) = []) /\ (forall x e, In e (edges_from g x) -> e_weights e = []) /\
+  (forall x, is_terminal (n_type (node_of g x)) = false -> n_wild (node_of g x) = []) /\
+  (forall x e, In e (edges_from g x) -> e_wild e = []).
 
 (* ---- the three hypotheses, decidable: a concrete graph is checked by evaluation ---- *)
 Definition rank_fn (l : list (str * nat)) (x : str) : nat := match assoc x l with Some n => n | None => 0%nat end.
@@ -88,10 +111,13 @@ Definition check_terminals (g : wgraph) : bool :=
           (g_edges g).
 Definition check_unweighted (g : wgraph) : bool :=
   forallb (fun n => match n_weights n with [] => true | _ => false end) (g_nodes g) &&
-  forallb (fun p : str * list wedge => forallb (fun e => match e_weights e with [] => true | _ => false end) (snd p)) (g_edges g).
+  forallb (fun p : str * list wedge => forallb (fun e => match e_weights e with [] => true | _ => false end) (snd p)) (g_edges g) &&
+  forallb (fun n => is_terminal (n_type n) || match n_wild n with [] => true | _ => false end) (g_nodes g) &&
+  forallb (fun p : str * list wedge => forallb (fun e => match e_wild e with [] => true | _ => false end) (snd p)) (g_edges g).
 
 Definition dag_check (g : wgraph) : bool :=
   check_ranked g (heights g) && check_terminals g && check_unweighted g.
 
 (* the specification with the rank computed from the graph itself *)
 Definition spec_weights (g : wgraph) (x : str) : wmap := gspec g (S (rank_fn (heights g) x)) x.
+Definition spec_wildcards (g : wgraph) (x : str) : list str := wild_spec g (S (rank_fn (heights g) x)) x.
